@@ -112,7 +112,7 @@ func (r *chainRun) violate(code int, detail string) {
 }
 
 func (r *chainRun) out(e *pipeline.Event) {
-	if e.Root == nil {
+	if e.Root == nil || e.IsChildParentKind() {
 		return
 	}
 	r.outs = append(r.outs, outEvent{ev: e, enc: e.Root.Encode(nil), at: r.cur})
@@ -121,6 +121,12 @@ func (r *chainRun) out(e *pipeline.Event) {
 // checkEvent: the event still is a well-formed JSON document that encodes and re-parses.
 func (r *chainRun) checkEvent(e *pipeline.Event, k int, when string) bool {
 	if e.Root == nil {
+		return true
+	}
+	if e.IsChildParentKind() {
+		// the parent of spawned children is never encoded (pipeline.Batch.ForEach and, after
+		// fixes/C13-stdout-split-parent.patch, the stdout output skip it): its tree went to the children
+		r.stats["parent_of_spawned_children_not_encoded"]++
 		return true
 	}
 	var enc []byte
@@ -139,11 +145,33 @@ func (r *chainRun) checkEvent(e *pipeline.Event, k int, when string) bool {
 		r.violate(obsBadJSON, r.types[k]+": "+when+" event does not re-parse: "+clipStr(string(enc), 80))
 		return false
 	}
-	if hx.String(hx.JSON(back.Node)) != hx.String(tree) {
+	if normTree(hx.JSON(back.Node)) != normTree(tree) {
 		r.violate(obsBadJSON, r.types[k]+": "+when+" event re-parses to another tree: "+clipStr(string(enc), 80))
 		return false
 	}
 	return true
+}
+
+// normTree: the tree up to the encoding. insane-json's encoder writes an invalid UTF-8 byte as
+// \ufffd when the string needs escaping at all and verbatim otherwise; both read back as "some
+// replacement of the bad byte", so bad bytes and U+FFFD are identified.
+func normTree(v hx.Sx) string {
+	var rec func(v hx.Sx) hx.Sx
+	rec = func(v hx.Sx) hx.Sx {
+		switch {
+		case hx.IsBytes(v):
+			return hx.S(string([]rune(hx.Str(v))))
+		case hx.IsList(v):
+			it := hx.Items(v)
+			out := make([]hx.Sx, len(it))
+			for i, x := range it {
+				out[i] = rec(x)
+			}
+			return hx.L(out...)
+		}
+		return v
+	}
+	return hx.String(rec(v))
 }
 
 func clipStr(s string, n int) string {
@@ -313,4 +341,18 @@ func execChain(cs hx.Sx, stats map[string]int) hx.Sx {
 		return r.viol
 	}
 	return hx.L(hx.I(obsOK))
+}
+
+func settingsOf(s [3]int) *pipeline.Settings {
+	st := &pipeline.Settings{AvgEventSize: 64, Capacity: 256, MaxEventSize: s[0], CutOffEventByLimit: s[1] != 0}
+	if s[2] != 0 {
+		st.CutOffEventByLimitField = "cutoff"
+	}
+	return st
+}
+
+func timeoutEvent() *pipeline.Event {
+	t := &pipeline.Event{SourceName: "timeout"}
+	t.SetTimeoutKind()
+	return t
 }
